@@ -32,7 +32,9 @@ import (
 // except classes, CASM metadata, the state and the event filters)
 var modelBuckets = []db.Bucket{db.ChainHeight, db.BlockHeaderNumbersByHash, db.BlockHeadersByNumber,
 	db.TransactionBlockNumbersAndIndicesByHash, db.StateUpdatesByBlockNumber, db.BlockCommitments,
-	db.L1HandlerTxnHashByMsgHash, db.BlockTransactions}
+	db.L1HandlerTxnHashByMsgHash, db.BlockTransactions,
+	// round 5: the per-transaction layout of earlier binaries (empty unless a phase writes it)
+	db.TransactionsByBlockNumberAndIndex, db.ReceiptsByBlockNumberAndIndex}
 
 func cksum(b []byte) uint64 {
 	h := uint64(7)
